@@ -93,7 +93,8 @@ def replay(case) -> dict:
             fails.append(dict(desc, clause="LoadBackIsTemplate", maxerr=float(np.max(np.abs(back - tmpl)))))
     # 2-D simulation = z projection of the 3-D one (when the volume contains the molecules in z)
     zs = [p1[0] / scale] + ([p2[0] / scale] if cfg["second"] != "none" else [])
-    if all(z - (shape[0] - 1) / 2 >= 0 and z + (shape[0] - 1) / 2 <= tshape[0] - 1 for z in zs):
+    # the 3-D reference clips at z < 0 exactly like the 2-D simulation must; the top of the volume must contain the molecules
+    if all(z + (shape[0] - 1) / 2 <= tshape[0] - 1 for z in zs):
         proj = np.asarray(engine.api(sim.simulate_2d, tshape[1:]), dtype=np.float64)
         if proj.shape != tshape[1:] or float(np.max(np.abs(proj - want.sum(axis=0)))) > 5e-3:
             fails.append(dict(desc, clause="Projection2D", maxerr=float(np.max(np.abs(proj - want.sum(axis=0)))) if proj.shape == tshape[1:] else None))
